@@ -281,4 +281,214 @@ theorem reset_restores_input (m : Mdl K) (hs : m.isSetup = true) (hr : m.tdsInit
   simp only [Function.comp, setupParam, restoreParam, setupCells_vin, List.map_map]
   rfl
 
+/-- after a reset every entry is `input · k` with `k` the coefficient recomputed from the bases as they are
+now (an altered `Sn` / `Vn` takes effect here), `k = 1` for an unflagged parameter -/
+theorem reset_recomputes (m : Mdl K) (p : Param K) :
+    ∀ c ∈ (setupParam m (restoreParam p)).cells, ∃ (k : Option K) (c0 : Cell K), c0 ∈ p.cells ∧
+      c.vin = c0.vin ∧ c.pu = k.getD 1 ∧ c.v = c0.vin * k.getD 1 := by
+  intro c hc
+  obtain ⟨k, c1, hc1, rfl⟩ := mem_setupCells _ _ _ _ _ hc
+  simp only [restoreParam, List.mem_map] at hc1
+  obtain ⟨c0, hc0, rfl⟩ := hc1
+  refine ⟨k, c0, hc0, ?_⟩
+  have := setup_values k (restoreCell c0)
+  simpa [restoreCell] using this
+
+example : ∃ m : Mdl ℚ, m.isSetup = true ∧ m.tdsInit = false ∧ m.params ≠ [] :=
+  ⟨{ hasBus := false, hasBus1 := false, hasNode := false, hasNode1 := false, inPflow := false, inTds := true,
+     Sb := 100, ext := [], params := [⟨[], .none, false, []⟩], isSetup := true, tdsInit := false,
+     addressed := false, cache := none }, rfl, rfl, by simp⟩
+
+/-- altering a base (`Sn`) changes nothing else until the reset, after which the flagged parameter is
+re-converted with the new base; a `set` in between is discarded -/
+theorem reset_example :
+    let m : Mdl ℚ :=
+      { hasBus := false, hasBus1 := false, hasNode := false, hasNode1 := false, inPflow := true,
+        inTds := false, Sb := 100, ext := [⟨1, 1, 1, 1⟩],
+        params := [⟨[.power], .none, false, [⟨3, 0, 0, 0, 0⟩]⟩, ⟨[], .sn, false, [⟨200, 0, 0, 0, 0⟩]⟩],
+        isSetup := false, tdsInit := false, addressed := false, cache := none }
+    let m1 := run m [.setup, .alter 1 0 400 .v false, .set 0 0 .v 77]
+    let m2 := run m [.setup, .alter 1 0 400 .v false, .set 0 0 .v 77, .reset false]
+    (m1.params.map (·.cells.map (fun c => (c.v, c.vin, c.pu)))) = [[(77, 3, 2)], [(400, 400, 1)]] ∧
+    (m2.params.map (·.cells.map (fun c => (c.v, c.vin, c.pu)))) = [[(12, 3, 4)], [(400, 400, 1)]] := by
+  decide +kernel
+
+/-- the calls that need `vin` raise before set-up and change nothing (findings
+`alter-vin-before-setup-raises`, `reset-before-setup-raises`): the statement's "every sequence before
+set-up" holds for `alter(attr='v')` only -/
+theorem before_setup_raises (m : Mdl K) (h : m.isSetup = false) (hT : m.tdsInit = false) (p uid : Nat) (x : K)
+    (g f : Bool) :
+    status m (.alter p uid x .vin g) = .typeError ∧ next m (.alter p uid x .vin g) = m ∧
+    status m (.reset f : Op K) = .typeError ∧ next m (.reset f) = m ∧
+    status m (.alter p uid x .v g) = .ok := by
+  simp [status, next, h, hT]
+
+/-- before set-up `alter(attr='v')` stores the input value, and set-up then converts it -/
+theorem alter_before_setup (m : Mdl K) (h : m.isSetup = false) (ha : m.addressed = false) (p uid : Nat) (x : K)
+    (g : Bool) :
+    next m (.alter p uid x .v g) = modCell m p uid (fun _ c => { c with v := x }) := by
+  simp only [next, status, h, modelAlter, modelSet, ha]
+  simp only [Bool.not_false, Bool.true_and, Bool.and_false]
+  have : (Attr.v == Attr.vin) = false := rfl
+  simp only [this, Bool.false_eq_true, if_false, bne_self_eq_false]
+  rfl
+
+/-! ## time constants -/
+
+/-- no `Group.set(attr='v')` in the sequence (it bypasses the propagation to `dae.Tf`) -/
+def noGroupSetV : Op K → Prop
+  | .gset _ _ .v _ => False
+  | _ => True
+
+theorem setVCell_tf (x : K) (c : Cell K) : (setVCell true x c).TfOk := by simp [setVCell, Cell.TfOk]
+
+theorem next_tfInv (m : Mdl K) (op : Op K) (h : m.TfInv) (hn : noGroupSetV op) : (next m op).TfInv := by
+  obtain ⟨h1, h2⟩ := h
+  unfold next
+  split
+  · exact ⟨h1, h2⟩
+  · rename_i hst
+    cases op with
+    | setup =>
+      -- only reachable when not set up, hence not addressed
+      have hs : m.isSetup = false := by
+        by_contra hc; simp [status, hc] at hst
+      have ha : m.addressed = false := by
+        by_contra hc; simp [h1 (by simpa using hc)] at hs
+      exact ⟨fun _ => rfl, fun hc => by simp [doSetup, ha] at hc⟩
+    | alter p uid x attr g =>
+      by_cases hs : m.isSetup = true
+      · simp only [modelAlter, hs, if_true]
+        refine ⟨fun hc => hs, fun hc => ?_⟩
+        have ha : m.addressed = true := hc
+        refine modCell_forall_tc (P := Cell.TfOk) m p uid _ (h2 ha) ?_
+        intro q c _ htc _
+        cases attr <;> simp [alterCell, htc, ha, setVCell, Cell.TfOk]
+      · have ha : m.addressed = false := by
+          by_contra hc; exact hs (h1 (by simpa using hc))
+        refine ⟨fun hc => ?_, fun hc => ?_⟩
+        · cases attr <;> simp [modelAlter, hs, modelSet, modCell, ha] at hc
+        · cases attr <;> simp [modelAlter, hs, modelSet, modCell, ha] at hc
+    | set p uid attr x =>
+      cases attr with
+      | v =>
+        refine ⟨h1, fun hc => ?_⟩
+        have ha : m.addressed = true := hc
+        refine modCell_forall_tc (P := Cell.TfOk) m p uid _ (h2 ha) ?_
+        intro q c _ htc _
+        simp [htc, ha, setVCell, Cell.TfOk]
+      | vin =>
+        refine ⟨h1, fun hc => ?_⟩
+        have ha : m.addressed = true := hc
+        refine modCell_forall_tc (P := Cell.TfOk) m p uid _ (h2 ha) ?_
+        intro q c hq htc hcell
+        have := h2 ha q (List.mem_of_getElem? hq) htc c (List.mem_of_getElem? hcell)
+        simpa [setVinCell, Cell.TfOk] using this
+    | gset p uid attr x =>
+      cases attr with
+      | v => exact absurd hn (by simp [noGroupSetV])
+      | vin =>
+        refine ⟨h1, fun hc => ?_⟩
+        have ha : m.addressed = true := hc
+        refine modCell_forall_tc (P := Cell.TfOk) m p uid _ (h2 ha) ?_
+        intro q c hq htc hcell
+        have := h2 ha q (List.mem_of_getElem? hq) htc c (List.mem_of_getElem? hcell)
+        simpa [setVinCell, Cell.TfOk] using this
+    | reset f => exact ⟨fun _ => rfl, fun hc => by simp [doReset, doSetup] at hc⟩
+    | pflow => exact ⟨h1, h2⟩
+    | tdsInit =>
+      have hT : m.tdsInit = false := by
+        cases hT : m.tdsInit
+        · rfl
+        · simp [status, hT] at hst
+      have hs : m.isSetup = true := by
+        cases hs : m.isSetup
+        · simp [status, hT, hs] at hst
+        · rfl
+      refine ⟨fun _ => hs, fun hc => ?_⟩
+      have hin : m.inTds = true := hc
+      intro q hq htc c hcell
+      simp only [hin, if_true, List.mem_map] at hq
+      obtain ⟨q0, _, rfl⟩ := hq
+      by_cases h0 : q0.tc = true
+      · simp only [storeTfParam, h0, if_true, List.mem_map] at hcell
+        obtain ⟨c0, _, rfl⟩ := hcell
+        exact ⟨rfl, rfl⟩
+      · simp [storeTfParam, h0] at htc
+    | dumpXlsx => exact ⟨h1, h2⟩
+    | dumpJson => exact ⟨h1, h2⟩
+
+/-- **a time constant altered through `alter` (model or group) or `Model.set` is what `dae.Tf` and the mass
+matrix `Teye` hold**, after every operation sequence without `Group.set(attr='v')`
+(`_partial`: with it the statement is FALSE for the real code, see `group_set_skips_tf`) -/
+theorem time_constant_propagates_partial (ops : List (Op K)) : ∀ (m : Mdl K), m.TfInv →
+    (∀ op ∈ ops, noGroupSetV op) → (run m ops).TfInv := by
+  induction ops with
+  | nil => intro m h _; exact h
+  | cons op ops ih =>
+    intro m h hn
+    exact ih (next m op) (next_tfInv m op h (hn op (by simp))) (fun o ho => hn o (by simp [ho]))
+
+/-- the invariant holds initially (nothing is addressed before TDS initialisation) -/
+theorem tfInv_initial (m : Mdl K) (h : m.addressed = false) : m.TfInv :=
+  ⟨fun hc => by simp [h] at hc, fun hc => by simp [h] at hc⟩
+
+/-- **Counterexample (finding `group-set-skips-tf`)**: after TDS initialisation `Group.set('M', idx, 'v', 60)`
+changes the parameter but `dae.Tf` / `Teye` keep the old value 12, while `Model.set` and `alter` update them. -/
+theorem group_set_skips_tf :
+    let m : Mdl ℚ :=
+      { hasBus := false, hasBus1 := false, hasNode := false, hasNode1 := false, inPflow := false,
+        inTds := true, Sb := 100, ext := [⟨1, 1, 1, 1⟩, ⟨1, 1, 1, 1⟩, ⟨1, 1, 1, 1⟩],
+        params := [⟨[.power], .none, true, [⟨6, 0, 0, 0, 0⟩, ⟨6, 0, 0, 0, 0⟩, ⟨6, 0, 0, 0, 0⟩]⟩,
+                   ⟨[], .sn, false, [⟨200, 0, 0, 0, 0⟩, ⟨200, 0, 0, 0, 0⟩, ⟨200, 0, 0, 0, 0⟩]⟩],
+        isSetup := false, tdsInit := false, addressed := false, cache := none }
+    let m1 := run m [.setup, .pflow, .tdsInit, .gset 0 0 .v 60, .set 0 1 .v 50, .alter 0 2 7 .v true]
+    m1.addressed = true ∧
+    (m1.params.head?.map (·.cells.map (fun c => (c.v, c.tf, c.teye)))) =
+      some [(60, 12, 12), (50, 50, 50), (14, 14, 14)] := by
+  decide +kernel
+
+/-- a small concrete system used for the non-vacuity examples: one machine-like model class with two
+devices, a power-flagged time constant `M`, and the base parameter `Sn` -/
+def demo : Mdl ℚ :=
+  { hasBus := false, hasBus1 := false, hasNode := false, hasNode1 := false, inPflow := false,
+    inTds := true, Sb := 100, ext := [⟨1, 1, 1, 1⟩, ⟨1, 1, 1, 1⟩],
+    params := [⟨[.power], .none, true, [⟨6, 0, 0, 0, 0⟩, ⟨5, 0, 0, 0, 0⟩]⟩,
+               ⟨[], .sn, false, [⟨200, 0, 0, 0, 0⟩, ⟨900, 0, 0, 0, 0⟩]⟩],
+    isSetup := false, tdsInit := false, addressed := false, cache := none }
+
+/-- the hypotheses of `alter_invariant` are satisfiable on a non-trivial run: set-up, then both flavours of
+`alter` (the `attr='vin'` one at an entry whose coefficient is 2) -/
+example : (next demo .setup).Consistent ∧
+    Admissible (next demo .setup) [.alter 0 0 7 .v true, .alter 0 0 30 .vin false, .pflow] := by
+  refine ⟨setup_establishes demo rfl, trivial, ?_, trivial, trivial⟩
+  intro q c hq hc
+  have h1 : q.cells.map (·.pu) = [2, 9] := by
+    have : (next (next demo .setup) (.alter 0 0 7 .v true)).params[0]?.map (·.cells.map (·.pu)) = some [2, 9] := by
+      decide +kernel
+    rw [hq] at this
+    simpa using this
+  have h2 : (q.cells.map (·.pu))[0]? = some c.pu := by simp [hc]
+  rw [h1] at h2
+  have : c.pu = 2 := by simpa using h2.symm
+  rw [this]; norm_num
+
+/-- ... and what that run computes -/
+example : ((run demo [.setup, .alter 0 0 7 .v true, .alter 0 1 30 .vin false]).params.head?.map
+    (·.cells.map (fun c => (c.v, c.vin, c.pu)))) = some [(14, 7, 2), (30, 10/3, 9)] := by
+  decide +kernel
+
+/-- the hypotheses of `time_constant_propagates_partial` are satisfiable -/
+example : demo.TfInv ∧ ∀ op ∈ ([.setup, .pflow, .tdsInit, .alter 0 1 3 .v true, .set 0 0 .v 4, .gset 0 0 .vin 1] : List (Op ℚ)),
+    noGroupSetV op := by
+  refine ⟨tfInv_initial demo rfl, ?_⟩
+  intro op hop
+  simp at hop
+  rcases hop with rfl | rfl | rfl | rfl | rfl | rfl <;> trivial
+
+example : let m1 := run demo [.setup, .pflow, .tdsInit, .alter 0 1 3 .v true, .set 0 0 .v 4]
+    m1.addressed = true ∧
+    (m1.params.head?.map (·.cells.map (fun c => (c.v, c.tf, c.teye)))) = some [(4, 4, 4), (27, 27, 27)] := by
+  decide +kernel
+
 end Andes.PerUnit
